@@ -6,7 +6,8 @@
 (*   FECall j, badctx                       HTTP request issued             *)
 (*   InitCall / InitRet                     sandbox.Init called / returned  *)
 (*   InvokeCall j / InvokeRet j, out, body  sandbox.Invoke called/returned  *)
-(*   FERet j, status, body                  HTTP answer received            *)
+(*   FERet j, status, body, lines           HTTP answer received; lines =   *)
+(*                                          what the handler printed for it *)
 (* Every event must be a step of FrontEnd for that request; the steps of    *)
 (* the handler that leave no event (testing initDone) are silent.           *)
 (***************************************************************************)
@@ -20,7 +21,8 @@ T == TraceLog[l]
 Is(e) == l <= Len(TraceLog) /\ T.e = e
 Adv == l' = l + 1
 
-TBegin == Is("Begin") /\ lock' = 0 /\ initDone' = FALSE /\ inits' = 0 /\ req' = [j \in Reqs |-> NoReq] /\ who' = 0 /\ Adv
+TBegin == Is("Begin") /\ lock' = 0 /\ initDone' = FALSE /\ inits' = 0 /\ req' = [j \in Reqs |-> NoReq]
+          /\ lines' = [j \in Reqs |-> <<>>] /\ who' = 0 /\ Adv
 
 TFECall == Is("FECall") /\ Arrive(T.j, T.badctx) /\ UNCHANGED who /\ Adv
 
@@ -40,6 +42,7 @@ TFERet ==
     /\ \/ RejectHeader(T.j)
        \/ Respond(T.j)
     /\ req'[T.j].status = T.status /\ req'[T.j].sent = T.body
+    /\ T.lines = lines'[T.j]          \* the lines printed for this request (captured standard output), in order
     /\ UNCHANGED who /\ Adv
 
 Silent == l <= Len(TraceLog) /\ (\E j \in Reqs : TestInitDone(j)) /\ UNCHANGED <<l, who>>
